@@ -34,7 +34,7 @@ RULE = ('label sets of 7 small really-rendered documents x {HTML5, XHTML} (+ 2 f
         'foreign files; plus round-trip / cross-document (incl. neighbours whose job names extend or are contained in the '
         'current one) / faulted-previous-file renders through the real call sites, document sequences with overlapping '
         'and twice-defined label names through plasTeX.Compile.run (same directory, paux-dirs, output directory, two '
-        'renderers into one file), and a BFS over persist/restore/corrupt histories on one file with two renderer keys; a case is '
+        'renderers into one file), 6 layouts of neighbour files over the working directory and listed paux-dirs, and a BFS over persist/restore/corrupt histories on one file with two renderer keys; a case is '
         'non-trivial when the file content presented to plasTeX differs from the intact saved file (fault cases) or '
         'the label set is non-empty (round trips); distinct = distinct (document, renderer, fault) / history; '
         'outcomes = distinct (reference reading of the faulted bytes, restored label count, re-save result)')
@@ -236,19 +236,28 @@ def _capture(document, names=None):
     return out
 
 
-def render(src, rname, jobname='job', pre=None, labels=None):
+def render(src, rname, jobname='job', pre=None, labels=None, extra=None):
     """Parse with plasTeX.Compile.parse (restores every other *.paux of the directory) and render with the
     stock renderer in a scratch directory.  `pre` = {filename: bytes | '<dir>'} placed there first;
-    `labels` = label names defined by `src`.
+    `labels` = label names defined by `src`; `extra` = [{filename: bytes}, ...]: further directories, created
+    outside the working directory and listed in config general/paux-dirs in that order.
     -> dict(exc, paux, captured, files, pages, ctx_labels)"""
     import plasTeX.Compile
     from plasTeX.Logging import disableLogging
     vstate.reset()
     res = {'exc': None, 'paux': None, 'captured': None, 'files': [], 'pages': {}, 'ctx_labels': {}}
     wd = _mkdtemp()
+    xroot = _mkdtemp() if extra else None
+    xdirs = []
     old = os.getcwd()
     os.chdir(wd)
     try:
+        for i, files in enumerate(extra or []):
+            d = os.path.join(xroot, 'pauxdir%d' % i)
+            os.makedirs(d)
+            xdirs.append(d)
+            for name, data in files.items():
+                _write(os.path.join(d, name), data)
         for name, data in (pre or {}).items():
             if data == '<dir>':
                 os.makedirs(os.path.join(wd, name))
@@ -260,6 +269,8 @@ def render(src, rname, jobname='job', pre=None, labels=None):
         try:
             with core.time_limit(60.0):
                 config = _config(rname)
+                if xdirs:
+                    config['general']['paux-dirs'] = list(xdirs)
                 tex = plasTeX.Compile.parse(jobname + '.tex', config)
                 disableLogging()
                 doc = tex.ownerDocument
@@ -302,6 +313,8 @@ def render(src, rname, jobname='job', pre=None, labels=None):
     finally:
         os.chdir(old)
         shutil.rmtree(wd, ignore_errors=True)
+        if xroot:
+            shutil.rmtree(xroot, ignore_errors=True)
     return res
 
 
@@ -1147,6 +1160,66 @@ def _seq_check(variant, rname):
     return '', None, None
 
 
+# ---------------------------------------------------------------------------
+# where the neighbours' files sit: working directory and / or the directories listed in paux-dirs
+# ---------------------------------------------------------------------------
+# layout name -> (documents whose .paux is in the working directory, [documents per listed directory, ...])
+LAYOUTS = {
+    'cwd_only': (['sec', 'eq'], []),
+    'dirs_only': ([], [['sec', 'eq']]),
+    'cwd_and_dir': (['sec'], [['eq']]),
+    'cwd_and_two_dirs': (['sec'], [['eq'], ['float', 'thm']]),
+    'cwd_and_empty_dir': (['sec', 'eq'], [[]]),
+    'same_document_in_both': (['sec', 'float'], [['sec', 'eq']]),
+}
+
+
+def _layout_check(layout, rname):
+    """Every label saved by a document whose .paux is in the working directory OR in a listed directory resolves
+    in the current document (real Compile.parse path)."""
+    in_cwd, in_dirs = LAYOUTS[layout]
+    cap, where = {}, {}
+    for doc in in_cwd + [d for ds in in_dirs for d in ds]:
+        if not usable(doc, rname):
+            return 'pool document %s did not render' % doc, None, saved(doc, rname)['exc']
+    pre = {'doc-%s.paux' % d: saved(d, rname)['paux'] for d in in_cwd}
+    extra = [{'doc-%s.paux' % d: saved(d, rname)['paux'] for d in ds} for ds in in_dirs]
+    for d in in_cwd:
+        for k, v in saved(d, rname)['captured'].items():
+            cap[k] = v
+            where.setdefault(k, []).append('working directory/doc-%s.paux' % d)
+    for i, ds in enumerate(in_dirs):
+        for d in ds:
+            for k, v in saved(d, rname)['captured'].items():
+                cap[k] = v
+                where.setdefault(k, []).append('paux-dirs[%d]/doc-%s.paux' % (i, d))
+    body = ['\\section{Own wqz}\\label{own:z}', 'Own \\ref{own:z}.']
+    for i, label in enumerate(cap):
+        body.append('wqr%d \\ref{%s}.' % (i, label))
+    src = '\\documentclass{article}\n\\begin{document}\n%s\n\\end{document}\n' % '\n'.join(body)
+    r = render(src, rname, jobname='docC', pre=pre, labels=['own:z'], extra=extra)
+    if r['exc']:
+        return 'processing docC raised %s' % r['exc'], 'no exception', r['exc']
+    wantv = {k: M.node_view(v) for k, v in cap.items()}
+    got = r['ctx_labels']
+    miss = sorted(set(w for k in wantv if k not in got for w in where[k]))
+    if miss:
+        return 'labels of %s were not restored while processing docC.tex' % ', '.join(miss), sorted(wantv), sorted(got)
+    msg = labels_match('exact', wantv, got)
+    if msg:
+        return 'labels of the other documents in the context of docC: ' + msg, wantv, got
+    anchors = _anchors(r['pages'])
+    for label, a in cap.items():
+        want = (str(a['url']), str(a['ref']))
+        if want not in anchors:
+            return ('\\ref{%s} (saved in %s) did not render a link' % (label, ' and '.join(where[label])), list(want),
+                    sorted(x for x in anchors if x[1] == want[1] or x[0] == want[0])[:6])
+    B = M.ref_load(r['paux'])
+    if not M.is_data(B) or not isinstance(B[1], dict) or set(B[1]) != {rname} or set(B[1][rname]) != {'own:z'}:
+        return 'docC.paux was not written with exactly the document\'s own labels', {rname: ['own:z']}, repr(B)[:200]
+    return '', None, None
+
+
 PREV_FAULTS = ['empty', 'half', 'lastbyte', 'text', 'list', 'other_renderer', 'flip_first_op', 'r_none', 'labelless_flip']
 
 
@@ -1232,6 +1305,16 @@ def _real_block(block):
             rep.sample({'case': {'kind': 'seq', 'variant': variant, 'rname': rname},
                         'history': ['run docA', 'run docB (restores docA.paux; shares sec:summary, eq:main; dup:x twice)',
                                     'run docB with the other renderer', 'run docA again', 'run docC seeing only docB.paux']})
+    elif kind == 'layout':
+        _, layout, rname = block
+        prob, exp, obs = _layout_check(layout, rname)
+        rep.case(key=block, nontrivial=True, outcome=(block, prob))
+        rep.count('layout')
+        if prob:
+            rep.violation({'kind': 'layout', 'layout': layout, 'rname': rname}, exp, obs, prob)
+        else:
+            rep.sample({'case': {'kind': 'layout', 'layout': layout, 'rname': rname},
+                        'paux_in_working_directory': LAYOUTS[layout][0], 'paux_in_listed_directories': LAYOUTS[layout][1]})
     elif kind == 'xnames':
         _, job, rname = block
         prob, exp, obs = _xnames_check(job, rname)
@@ -1486,6 +1569,9 @@ def _judge_case(case):
     if kind == 'seq':
         prob, exp, obs = _seq_check(case['variant'], case['rname'])
         return {'verdict': 'violation' if prob else 'ok', 'fids': [], 'expected': exp, 'observed': obs, 'detail': prob}
+    if kind == 'layout':
+        prob, exp, obs = _layout_check(case['layout'], case['rname'])
+        return {'verdict': 'violation' if prob else 'ok', 'fids': [], 'expected': exp, 'observed': obs, 'detail': prob}
     if kind == 'xnames':
         prob, exp, obs = _xnames_check(case['job'], case['rname'])
         return {'verdict': 'violation' if prob else 'ok', 'fids': [], 'expected': exp, 'observed': obs, 'detail': prob}
@@ -1543,6 +1629,9 @@ def run(tier, seed, rep):
     for v in SEQ_VARIANTS:
         for r in RENDERERS:
             blocks.append(('seq', v, r))
+    for v in LAYOUTS:
+        for r in RENDERERS:
+            blocks.append(('layout', v, r))
     ok = usable
     for d in docs + PAIRS:
         for r in RENDERERS:
@@ -1563,12 +1652,12 @@ def run(tier, seed, rep):
         'fault_space_sizes': sizes,
         'flip2_window': ('all bit pairs in bytes [0,%d) + all bit pairs inside [p,p+2) for every opcode position p' % HEAD)
         + ('' if quick else ' + all bit pairs at byte distance <= %d + bytes [0,%d) x whole file' % (DIST, HEAD)),
-        'prev_faults': PREV_FAULTS, 'xnames': {j: xname_others(j) for j in XNAME_JOBS}, 'seq_variants': SEQ_VARIANTS, 'bfs_ops': bfs_ops(tier), 'bfs_depth': depth,
+        'prev_faults': PREV_FAULTS, 'xnames': {j: xname_others(j) for j in XNAME_JOBS}, 'seq_variants': SEQ_VARIANTS, 'paux_layouts': {k: {'cwd': v[0], 'paux_dirs': v[1]} for k, v in LAYOUTS.items()}, 'bfs_ops': bfs_ops(tier), 'bfs_depth': depth,
         'rlimit_as_headroom_bytes': AS_EXTRA, 'alarm_s': TL,
     }
     out = {'exhaustive': True, 'bounds': bounds, 'blocks': len(blocks),
            'transitions': rep.transitions, 'traces_validated_against_impl': rep.traces,
            'floors': {'evaluations': 50000, 'flip1.ref_loads': 1000, 'flip1.ref_garbage': 1000,
-                      'prefix.ref_garbage': 1000, 'rt.restore': 10, 'xdoc.clean': 10, 'xnames': 4, 'seq': 8, 'bfs.op_P': 50}}
+                      'prefix.ref_garbage': 1000, 'rt.restore': 10, 'xdoc.clean': 10, 'xnames': 4, 'seq': 8, 'layout': 12, 'bfs.op_P': 50}}
     out.update(bfs)
     return out
